@@ -15,7 +15,7 @@ RULE = ("1-3 sample buffers per case, 1-4 frames per buffer: DF17 with correct p
         "reader created with object.__new__(RtlReader); consecutive _process_buffer() calls share the running noise floor. Oracle: the returned hex strings "
         "are exactly the admissible transmitted frames, in order, upper case, right length; every returned DF17 has reference CRC 0. "
         "non-trivial = >= 2 frames of different length, odd start offset, rho > 0.1, or a corrupted DF17 present"
-        ' Also: the noise level is drawn per buffer, the last frame of a buffer may end anywhere up to the buffer end, and complex IQ samples of arbitrary phase are delivered through _read_callback in read-size pieces (leg iq_callback).')
+        ' Also: the noise level is drawn per buffer, the last frame of a buffer may end anywhere up to the buffer end, and complex IQ samples of arbitrary phase are delivered through _read_callback in read-size pieces (leg iq_callback); buffers whose first 6.5-9 ms are packed with strong replies every 400 samples before a quiet stretch and weak frames, and buffers longer than buffer_size (direct call, or two equal reads that overshoot it) with a frame across sample index buffer_size (leg long_buffers).')
 ASSUMPTIONS = ["noise samples are additionally capped at 0.19: the preamble matcher accepts any sample >= 0.2 as a pulse, so stronger noise could legitimately "
                "look like a preamble and no threshold demodulator could be expected to reject it",
                "frames lie completely inside their buffer", "time stamps returned with the frames are ignored"]
@@ -201,5 +201,85 @@ def chk_iq(case, note):
     return None
 
 
-LEGS = [Leg("iq_callback", chk_iq, strategy=s_iq, quick=64, thorough=1200, doc="complex IQ samples through _read_callback (amplitude, buffering up to buffer_size, handle_messages)"),
+# ------------------------------------------------------------------ long buffers: busy head / more samples than one nominal buffer
+@st.composite
+def s_long(draw):
+    kind = draw(st.sampled_from(["dense-head", "oversize", "oversize-iq"]))
+    weak = [dict(f, amp=draw(gen.ufloat(0.3, 0.5))) for f in draw(st.lists(s_frame(), min_size=1, max_size=3))]
+    c = {"kind": kind, "shape": draw(st.sampled_from(["zero", "constant", "uniform", "two-level"])), "nseed": draw(gen.ubits(32)),
+         "rho": draw(st.one_of(gen.ufloat(0.0, 0.316), st.sampled_from([0.0, 0.3]))), "pseed": draw(gen.ubits(32))}
+    if kind == "dense-head":
+        # strong short replies every 400 samples (gap 272 >= one frame length) for the first 6.5-9 ms, a quiet stretch, then weak frames
+        c["lead"] = draw(st.one_of(gen.uint(0, 199), gen.uint(73, 199)))
+        n = draw(gen.uint(33, 46))
+        per = draw(st.sampled_from([272, 272, 272, 240, 280]))
+        c["items"] = [{"msg": "%014X" % frames.raw(draw(st.sampled_from([4, 5, 11])), draw(gen.ubits(27)), 56, draw(gen.ubits(24))), "amp": draw(gen.ufloat(1.0, 1.4)),
+                       "jseed": draw(gen.ubits(32)), "gap": per} for _ in range(n)]
+        c["items"][-1]["gap"] = draw(gen.uint(400, 3000))
+        c["items"] += weak
+        c["total"] = None
+    else:
+        # more samples than one nominal buffer (reads that do not add up to exactly buffer_size, or a direct call on a long list):
+        # frames early, one across sample index buffer_size, others behind it
+        size = rtlreader.buffer_size
+        early = draw(st.lists(s_frame(), min_size=0, max_size=2))
+        c["lead"] = draw(gen.uint(400, 2000))
+        used = c["lead"] + sum(16 + len(f["msg"]) * 8 + f["gap"] for f in early)
+        across = draw(s_frame())
+        start = size - draw(gen.uint(1, 16 + len(across["msg"]) * 8 - 1))
+        if early:
+            early[-1] = dict(early[-1], gap=early[-1]["gap"] + start - used)
+        else:
+            c["lead"] = start
+        c["items"] = early + [across] + weak
+        c["total"] = size + draw(st.one_of(gen.uint(2000, 40000), st.sampled_from([35200, 2048, 102400])))
+    return c
+
+
+def chk_long(case, note):
+    import numpy as np
+    buf = {"lead": case["lead"], "items": case["items"]}
+    nlevel = min(case["rho"] * min_amp(buf), 0.19)
+    tile = np.array([noise_sample(case["shape"], nlevel, case["nseed"], k) for k in range(1024)])
+    slots = [None] * case["lead"]
+    for it in case["items"]:
+        slots += modulate(it["msg"], it["amp"], it["jseed"]) + [None] * it["gap"]
+    if case["total"] is not None:
+        if len(slots) > case["total"]:
+            return None
+        slots += [None] * (case["total"] - len(slots))
+    noise = np.resize(tile, len(slots)).tolist()
+    samples = [s if s is not None else noise[k] for k, s in enumerate(slots)]
+    want = [it["msg"] for it in case["items"] if admissible(it["msg"])]
+    if case["kind"] == "oversize-iq":
+        phase = np.resize(np.array([unit(case["pseed"], k) for k in range(2048)]), len(samples))
+        iq = np.array(samples) * np.exp(2j * np.pi * phase)
+        rd = object.__new__(_Collect)
+        rd.signal_buffer, rd.debug, rd.noise_floor, rd.got = [], False, 1e6, []
+        half = len(iq) // 2          # two reads of the same size, the second one takes the buffer beyond buffer_size
+        for piece in (iq[:half], iq[half:]):
+            r = call(rd._read_callback, piece, None)
+            if r[0] != "ok":
+                return "_read_callback raised %r" % (r[1:],)
+        got = rd.got
+    else:
+        rd = object.__new__(rtlreader.RtlReader)
+        rd.signal_buffer, rd.debug, rd.noise_floor = samples, False, 1e6
+        r = call(rd._process_buffer)
+        if r[0] != "ok":
+            return "_process_buffer raised %r on a buffer of %d samples" % (r[1:], len(samples))
+        got = [m[0] for m in r[1]]
+    if got != want:
+        miss = [m for m in want if m not in got]
+        return "%s buffer of %d samples (noise %s up to %.4f): %d frames returned, %d transmitted admissible; missing %r, unexpected %r" % (
+            case["kind"], len(samples), case["shape"], nlevel, len(got), len(want), miss[:3], [m for m in got if m not in want][:3])
+    note.evals = len(want)
+    note.cls(case["kind"])
+    note.nt(True)
+    return None
+
+
+LEGS = [Leg("long_buffers", chk_long, strategy=s_long, quick=64, thorough=1500,
+            doc="buffers whose first 6.5-9 ms are densely occupied by strong replies before weak frames; buffers longer than buffer_size with a frame across that index"),
+        Leg("iq_callback", chk_iq, strategy=s_iq, quick=64, thorough=1200, doc="complex IQ samples through _read_callback (amplitude, buffering up to buffer_size, handle_messages)"),
         Leg("demodulate", chk_case, strategy=s_case, quick=5000, thorough=120000, doc="synthetic PPM buffers through RtlReader._process_buffer")]
